@@ -281,6 +281,44 @@ R("R19: splat.Read: errors.Is + early return form after the loop",SPL,
 "\tif err == io.EOF {\n\t\terr = nil\n\t}\n","\tif err != nil && !errors.Is(err, io.EOF) {\n\t\treturn modeling.EmptyMesh(modeling.PointTopology), err\n\t}\n\terr = nil\n",
  edits=[(SPL,"\t\"encoding/binary\"\n\t\"io\"","\t\"encoding/binary\"\n\t\"errors\"\n\t\"io\"")])
 
+# ---- round 2: declared count honoured (CNT-1), completeness check counts records (PRE-3) ----
+M("M52: pts.ReadPointCloud: completeness check compares a 1-based line counter (seed C14-r23)",PTS,
+"\tcurLine := 0\n\tfor scanner.Scan() && curLine < parsedCount {\n","\tlineNo := 1\n\tcurLine := 0\n\tfor scanner.Scan() && curLine < parsedCount {\n\t\tlineNo++\n",["PRE-3"],
+ edits=[(PTS,"\tif curLine < parsedCount {\n\t\treturn nil, fmt.Errorf(\"pts declares %d points but only %d were found: %w\", parsedCount, curLine, io.ErrUnexpectedEOF)","\tif lineNo < parsedCount {\n\t\treturn nil, fmt.Errorf(\"pts declares %d points but only %d were found: %w\", parsedCount, lineNo, io.ErrUnexpectedEOF)")])
+M("M53: pts.ReadPointCloud: completeness check off by one (curLine < parsedCount-1)",PTS,"\tif curLine < parsedCount {","\tif curLine < parsedCount-1 {",["PRE-3","IO-2"])
+M("M54: pts.ReadPointCloud: completeness check on a counter that also counts skipped blank lines",PTS,
+"\tcurLine := 0\n\tfor scanner.Scan() && curLine < parsedCount {\n\t\tline := strings.TrimSpace(scanner.Text())\n\t\tif line == \"\" {\n\t\t\treturn nil, errors.New(\"encountered empty line in pts\")\n\t\t}\n",
+"\tseen := 0\n\tcurLine := 0\n\tfor scanner.Scan() && curLine < parsedCount {\n\t\tseen++\n\t\tline := strings.TrimSpace(scanner.Text())\n\t\tif line == \"\" {\n\t\t\tcontinue\n\t\t}\n",["PRE-3"],
+ edits=[(PTS,"\tif curLine < parsedCount {","\tif seen < parsedCount {"),(PTS,"\t\"errors\"\n","")])
+CLAMP_OLD="\ttris := make([]Triangle, triCount)\n"
+M("M55: stl.Read: declared triangle count lowered to what a Len()-aware source still holds (seed C14-r24)",STL,CLAMP_OLD,
+"\tif sized, ok := in.(interface{ Len() int }); ok {\n\t\tif available := uint32(sized.Len() / 50); triCount > available {\n\t\t\ttriCount = available\n\t\t}\n\t}\n\n"+CLAMP_OLD,["CNT-1"])
+M("M56: stl.Read: make([]Triangle, min(triCount, available)) (builtin min form)",STL,CLAMP_OLD,
+"\tn := triCount\n\tif sized, ok := in.(interface{ Len() int }); ok {\n\t\tn = min(n, uint32(sized.Len()/50))\n\t}\n\ttris := make([]Triangle, n)\n",["CNT-1"])
+COPY_OLD="\tif len(line) <= int(lpr.lastReadListSize) {\n\t\treturn -1, fmt.Errorf(\"list declares %d entries but only %d follow\", lpr.lastReadListSize, len(line)-1)\n\t}\n"
+M("M57: ply.listAsciiPropertyReader.Read: copy() clamps a short list (seed C14-r21)",LA,COPY_OLD,"\tif v < 0 {\n\t\treturn -1, fmt.Errorf(\"list declares a negative size: %d\", v)\n\t}\n",["CNT-1"],
+ edits=[(LA,"\tcopy(lpr.buf, line[1:lpr.lastReadListSize+1])\n\treturn int(lpr.lastReadListSize) + 1, err","\tn := copy(lpr.buf[:lpr.lastReadListSize], line[1:])\n\treturn n + 1, nil")])
+M("M58: ply.listAsciiPropertyReader.Read: list size clamped to the tokens left (if size > len(line)-1 { size = len(line)-1 })",LA,
+"\tlpr.lastReadListSize = int32(v)\n\n"+COPY_OLD,"\tif int(v) > len(line)-1 {\n\t\tv = int64(len(line) - 1)\n\t}\n\tlpr.lastReadListSize = int32(v)\n",["CNT-1"],
+ edits=[(LA,"\t\"errors\"\n\t\"fmt\"\n","\t\"errors\"\n")])
+R("R20: stl.Read: triangles read one by one, only the capacity of the pre-allocation is clamped to Len()",STL,
+"\ttris := make([]Triangle, triCount)\n\tif err := binary.Read(in, binary.LittleEndian, &tris); err != nil {\n\t\treturn nil, fmt.Errorf(\"unable to read tris: %w\", err)\n\t}\n",
+"\tcapHint := triCount\n\tif sized, ok := in.(interface{ Len() int }); ok {\n\t\tif available := uint32(sized.Len() / 50); capHint > available {\n\t\t\tcapHint = available\n\t\t}\n\t}\n\ttris := make([]Triangle, 0, capHint)\n\tfor i := uint32(0); i < triCount; i++ {\n\t\tvar t Triangle\n\t\tif err := binary.Read(in, binary.LittleEndian, &t); err != nil {\n\t\t\treturn nil, fmt.Errorf(\"unable to read tris: %w\", err)\n\t\t}\n\t\ttris = append(tris, t)\n\t}\n")
+R("R21: pts: line numbers in error messages (seed C14-r23 without the defect), completeness check still on the point counter",PTS,
+"\tcurLine := 0\n\tfor scanner.Scan() && curLine < parsedCount {\n","\tlineNo := 1\n\tcurLine := 0\n\tfor scanner.Scan() && curLine < parsedCount {\n\t\tlineNo++\n",
+ edits=[(PTS,"\t\t\treturn nil, errors.New(\"encountered empty line in pts\")","\t\t\treturn nil, fmt.Errorf(\"pts line %d: encountered empty line in pts\", lineNo)"),(PTS,"\t\"errors\"\n","")])
+R("R22: pts: records counted in a separate variable, check on it",PTS,
+"\tcurLine := 0\n","\tnRead := 0\n\tcurLine := 0\n",
+ edits=[(PTS,"\t\tcurLine++\n","\t\tcurLine++\n\t\tnRead++\n"),(PTS,"\tif curLine < parsedCount {","\tif nRead < parsedCount {")])
+R("R23: ply.listAsciiPropertyReader.Read: explicit len(line)-1 < size test, then copy from the open-ended tail",LA,
+"\tif len(line) <= int(lpr.lastReadListSize) {","\tif len(line)-1 < int(lpr.lastReadListSize) {",
+ edits=[(LA,"\tcopy(lpr.buf, line[1:lpr.lastReadListSize+1])\n\treturn int(lpr.lastReadListSize) + 1, err","\tn := copy(lpr.buf[:lpr.lastReadListSize], line[1:])\n\treturn n + 1, nil")])
+R("R24: pts: completeness check written as len(points) < declared on an appended slice",PTS,
+"\treadVerts := make([]vector3.Float64, parsedCount)","\treadVerts := make([]vector3.Float64, 0, parsedCount)",
+ edits=[(PTS,"\t\treadVerts[curLine] = pos\n","\t\treadVerts = append(readVerts, pos)\n"),(PTS,"\tif curLine < parsedCount {","\tif len(readVerts) < parsedCount {")])
+R("R25: ply.listAsciiPropertyReader.Read: number copied compared with the declared size afterwards",LA,COPY_OLD,"",
+ edits=[(LA,"\tcopy(lpr.buf, line[1:lpr.lastReadListSize+1])\n\treturn int(lpr.lastReadListSize) + 1, err","\tif n := copy(lpr.buf[:lpr.lastReadListSize], line[1:]); n < int(lpr.lastReadListSize) {\n\t\treturn -1, fmt.Errorf(\"list declares %d entries but only %d follow\", lpr.lastReadListSize, n)\n\t}\n\treturn int(lpr.lastReadListSize) + 1, err")])
+
 # sanity: every fragment present when applied sequentially
 bad=0
 for e in out:
